@@ -123,8 +123,12 @@ pub fn stub_vec_push<T, A: std::alloc::Allocator + Clone>(v: &mut Vec<T, A>, x: 
       nv.set_len(n);
       v.set_len(0);
     }
-    core::mem::swap(v, &mut nv);
-    // nv now owns the old buffer with len 0; dropping it frees the buffer only
+    // move the new Vec in place (ptr::read/write instead of mem::swap: swap is a chunked
+    // byte loop that would need unwinding); `old` owns the old buffer with len 0, dropping
+    // it frees the buffer only
+    let old = unsafe { core::ptr::read(v) };
+    unsafe { core::ptr::write(v, nv) };
+    drop(old);
   }
   unsafe {
     let n = v.len();
